@@ -19,12 +19,12 @@ ASSUMPTIONS = [
     "on the deliver state), not through a full proposal life cycle",
     "every history runs in a child process; one in which the application exits (logger.Fatal) is dropped and counted in "
     "coverage.crashed_histories (none since fix e681066; findings/C11_observation_negative_power_exit.json is a corpus case that must run to the end)",
-    "C11_validator_record_partial additionally assumes: no validator record reaches 2^63 whole OLT; PenaltyBasePercentage >= 0, "
-    "PenaltyBaseDecimals > 0; no postponed penalty refused by the purge-height rule (the last one is the known finding C11.postponed_penalty_blocked)",
+    "C11_validator_record assumes (environment, stated in the theorem): non-negative genesis amounts; no validator record reaches 2^63 "
+    "whole OLT; PenaltyBasePercentage >= 0, PenaltyBaseDecimals > 0",
 ]
 
 # trigger code -> trigger id
-# triggers 1, 2 (fix 48c76fc/d276709), 3 (e681066) and 4 (cb71748) are repaired (status "fixed"): they explain nothing any more —
+# triggers 1, 2 (fix 48c76fc/d276709), 3 (e681066), 4 (cb71748) and 6 (0ce270f) are repaired (status "fixed"): they explain nothing any more —
 # a monitor violation or a model mismatch downstream of them is an ordinary VIOLATION
 TRIGGERS = {1: "C11.stake_amount_ge_2p63", 2: "C11.negative_amount_deliver", 3: "C11.validator_record_deleted_with_stake",
             4: "C11.penalty_not_atomic", 5: "C11.withdraw_names_other_validator", 6: "C11.postponed_penalty_blocked"}
@@ -32,7 +32,7 @@ TRIGGERS = {1: "C11.stake_amount_ge_2p63", 2: "C11.negative_amount_deliver", 3: 
 MONITORS = {
     11: ("validator total (st__t_) differs from the sum of its delegators' effective amounts", []),
     12: ("delegator effective total (st__d_e_) differs from the sum over validators", []),
-    13: ("validator record stake (v_) differs from st__t_ (+ pending penalty)", [6]),
+    13: ("validator record stake (v_) differs from st__t_ (+ pending penalty)", []),
     14: ("withdrawn exceeds staked minus penalised (whole OLT)", []),
     15: ("paid out exceeds paid in minus penalties (base units, balance side)", []),
     16: ("WITHDRAW accepted while a validator owned by the delegator is frozen", [5]),
@@ -178,9 +178,9 @@ def run(ctx):
     clean_cases = len(cases) - len({c for (c, _, _) in trg})
     ctx.coverage.update({
         "evaluations": rep["steps"], "distinct_nontrivial": rep["txs"],
-        "rule": "7 scripted histories (life cycle, the refuted-theorem witnesses, verdict+freeze, maturity option change on a genesis "
+        "rule": "10 scripted histories (life cycle, several unstakes of one delegator maturing at the same height from the same and from another validator, the former refuted-theorem witnesses, verdict+freeze, maturity option change on a genesis "
                 "with maturing amounts) + seeded random histories of 14-23 blocks over 6 validators (4 genesis, 2 candidates) and their "
-                "stake accounts: stake/unstake/withdraw with amounts around 0, the balance (1,000,000 OLT), the validator total, and in a "
+                "stake accounts (candidates partly staked from a genesis validator's account; bursts of 2-4 unstakes of one delegator per block): stake/unstake/withdraw with amounts around 0, the balance (1,000,000 OLT), the validator total, and in a "
                 "third of the histories 2^63-1, 2^64, 2^64+1000, 2^65, -1, -100, -2^64 (all rejected since fix 48c76fc); a GUILTY verdict in half of them; maturity 0..5; "
                 "evaluations = model steps compared, distinct = staking transactions delivered",
         "traces_validated_against_impl": rep["cases"], "histories": rep["cases"], "corpus_replays": ncorpus, "histories_without_any_trigger": clean_cases,
